@@ -13,7 +13,7 @@ import (
 // TestDocs validates the reference interpreter against the documentation: every evy block
 // with a documented output must be reproduced by the reference.
 func TestDocs(t *testing.T) {
-	exs := corpus.DocExamples("/repo")
+	exs := corpus.DocExamples(corpus.RepoDir())
 	ok, skipped := 0, 0
 	for _, ex := range exs {
 		prog, errs, gp := run.Parse(ex.Src)
